@@ -24,6 +24,8 @@ _PURE = {
     "math.ceil": math.ceil, "math.trunc": math.trunc, "math.fabs": math.fabs,
     "isnan": math.isnan, "isinf": math.isinf, "isfinite": math.isfinite, "copysign": math.copysign,
 }
+_STR_METHODS = {"startswith", "endswith", "strip", "lstrip", "rstrip", "partition", "rpartition", "split", "rsplit", "ljust", "rjust", "zfill", "lower", "upper", "replace",
+                "removeprefix", "removesuffix", "isdigit", "find", "index", "count", "join", "format"}
 _TYPES = {"float": float, "int": int, "str": str, "bool": bool, "bytes": bytes}
 _ATTRS = {"math.inf": math.inf, "math.nan": math.nan, "math.pi": math.pi}
 
@@ -48,6 +50,42 @@ def ev(t: Sym, env: Dict[Any, Any]) -> Any:
         return ev(t[2], env) if ev(t[1], env) else ev(t[3], env)
     if k == "tuple":
         return tuple(ev(x, env) for x in t[1])
+    if k == "list":
+        return [ev(x, env) for x in t[1]]
+    if k == "item":
+        seq = ev(t[1], env)
+        try:
+            return seq[t[2]]
+        except (TypeError, IndexError, KeyError) as e:
+            raise Unknown(f"item: {e}")
+    if k == "slice":
+        return slice(*[None if x is None or x == ("c", None) else ev(x, env) for x in t[1:4]])
+    if k == "sub":
+        base = ev(t[1], env)
+        idx = ev(t[2], env)
+        try:
+            return base[idx]
+        except (TypeError, IndexError, KeyError) as e:
+            raise Unknown(f"subscript: {e}")
+    if k == "fstr":
+        out = ""
+        for part in t[1]:
+            if part[0] == "c":
+                out += str(part[1])
+            elif part[0] == "fmt":
+                v = ev(part[1], env)
+                conv, spec = part[2], part[3]
+                if conv in ("r", 114):
+                    v = repr(v)
+                elif conv in ("s", 115):
+                    v = str(v)
+                elif conv in ("a", 97):
+                    v = ascii(v)
+                sp = spec if isinstance(spec, str) or spec is None else ev(spec, env)
+                out += format(v, sp or "")
+            else:
+                raise Unknown("fstr part")
+        return out
     if k == "dictd":
         return {ev(a, env): ev(b, env) for a, b in t[1]}
     if k == "op":
@@ -111,6 +149,24 @@ def ev(t: Sym, env: Dict[Any, Any]) -> Any:
                     except TypeError:
                         raise Unknown("unhashable key")
                 return default
+        if t[1][0] == "a" and t[1][2] in _STR_METHODS:
+            try:
+                recv = ev(t[1][1], env)
+            except Unknown:
+                recv = None
+            if isinstance(recv, (str, bytes)):
+                args = [ev(x, env) for x in t[2]]
+                kw = {k_: ev(v_, env) for k_, v_ in t[3]}
+                try:
+                    return getattr(recv, t[1][2])(*args, **kw)
+                except (TypeError, ValueError) as e:
+                    raise Unknown(f"{t[1][2]}: {e}")
+        if name in ("timedelta", "datetime.timedelta"):
+            import datetime as _dt
+            try:
+                return _dt.timedelta(*[ev(x, env) for x in t[2]], **{k_: ev(v_, env) for k_, v_ in t[3]})
+            except (TypeError, ValueError, OverflowError) as e:
+                raise Unknown(f"timedelta: {e}")
         if name in _PURE and not t[3]:
             args = [ev(x, env) for x in t[2]]
             try:
